@@ -127,6 +127,14 @@ func (t *T) Avoid(tag string) bool {
 }
 
 func sigMatch(pattern, sig string) bool {
+	if strings.Contains(pattern, " || ") {
+		for _, p := range strings.Split(pattern, " || ") {
+			if sigMatch(p, sig) {
+				return true
+			}
+		}
+		return false
+	}
 	if !strings.Contains(pattern, "*") {
 		return pattern == sig
 	}
